@@ -406,6 +406,9 @@ func (o evalOp) line() string {
 // execCase runs the lines of one case (observations stripped) and returns them with fresh observations and
 // fresh oracle lines.
 func execCase(lines []string) (out []string) {
+	if len(lines) > 0 && strings.HasPrefix(lines[0], "lam ") {
+		return execLamCase(lines)
+	}
 	var e *ex
 	var insts = map[int]stateful.Expression{}
 	seen := map[string]bool{}
@@ -674,4 +677,47 @@ func Run(args []string) int {
 		out.Flush()
 	}
 	return 0
+}
+
+// execLamCase: `lam <k>` then `lev <inst>` lines — the expression `(lambda: count()) > k` (a lambda node nested in an
+// expression, as a lambda variable used inside another lambda produces) asked through EvalBool by CopyReset copies.
+func execLamCase(lines []string) (out []string) {
+	k, _ := strconv.ParseInt(strings.Fields(lines[0])[1], 10, 64)
+	node := &ast.BinaryNode{Operator: ast.TokenGreater,
+		Left:  &ast.LambdaNode{Expression: &ast.FunctionNode{Type: ast.GlobalFunc, Func: "count"}},
+		Right: &ast.NumberNode{IsInt: true, Int64: k}}
+	out = append(out, "lam "+strconv.FormatInt(k, 10))
+	se, err := stateful.NewExpression(node)
+	if err != nil {
+		return append(out, "bad compile")
+	}
+	insts := map[int]stateful.Expression{}
+	for _, raw := range lines[1:] {
+		line := raw
+		if i := strings.Index(line, " => "); i >= 0 {
+			line = line[:i]
+		}
+		t := strings.Fields(line)
+		if len(t) != 2 || t[0] != "lev" {
+			continue
+		}
+		id, _ := strconv.Atoi(t[1])
+		if insts[id] == nil {
+			insts[id] = se.CopyReset()
+		}
+		func() {
+			defer func() {
+				if r := recover(); r != nil {
+					out = append(out, line+" => panic")
+				}
+			}()
+			sc := stateful.NewScope()
+			if _, err := insts[id].Type(sc); err != nil {
+				out = append(out, line+" => err")
+				return
+			}
+			out = append(out, line+" => "+obsValue(insts[id].EvalBool(sc)))
+		}()
+	}
+	return out
 }
